@@ -1,9 +1,9 @@
 (* name -> extracted machine *)
 let machines : (string * Base.machine) list = [
   "event", Event.machine;
-  "mutex", Mutex.machine;
+  "mutex", MutexSpec.machine;
   "semaphore", SemaphoreSpec.machine;
-  "mpmc", MpmcSpec.machine;
+  "mpmc", MpmcStream.machine;
   "oneshot", OneshotSpec.machine;
   "state", StateBcastSpec.machine;
   "timer", TimerSpec.machine;
